@@ -39,7 +39,7 @@ CLAIMED = {
         technique="MIR must-pass-through (success-edge dominance of Ok exits) + who-may-call tables over the call graph",
         text="Partial (protocol skeleton): on every path an acknowledged put/update/delete is dominated by a successful WAL append; the log window "
              "(record_checkpoint) moves only after apply_records succeeded on the WAL's own pending records, at the reviewed call sites only; open returns "
-             "Ok only after recover_wal replayed records_after(header.wal_sequence); drop commits on the dirty edge and every acknowledged append sets dirty.",
+             "Ok only after recover_wal replayed records_after(header.wal_sequence); drop commits on the dirty edge and every acknowledged append sets dirty; the in-place block move that shifts committed bytes when the WAL grows walks away from its destination (memmove direction rule).",
         note="Not decided: equality with a reference model over histories (runtime values), content fidelity across in-place WAL growth.",
         design_ref="DESIGN.md §4 C01"),
     "C03": dict(
